@@ -185,6 +185,10 @@ def build():
         'c12_time_strings_one_ms_short.py',
         'time strings evaluate to value times unit also for decimal fractions (2.01s = 2010 ms)'))
     C.finite_checks.append(common.native_demo_check(
+        "c12_empty_subconfig_element.py",
+        "an element without settings in a list / dict of sub-configs comes back with every key of the sub-spec (defaults "
+        "filled in) or is rejected"))
+    C.finite_checks.append(common.native_demo_check(
         "c12_nan_passes_range_check.py", "nan is rejected by every ranged numeric validator (float / num / int ranges)"))
     # ---- list normalisation of non-string items (the split of real strings is not modelled)
     for fn_ in ("string_to_list", "string_to_event_list"):
